@@ -50,6 +50,9 @@ type TxPlan struct {
 	ToKey  int    `json:"to_key,omitempty"`
 	Amount string `json:"amount,omitempty"`
 	Raw    string `json:"raw,omitempty"`
+	// replay of the bytes of an earlier tx of the history: block index and tx index
+	RBlock int `json:"rblock,omitempty"`
+	RIndex int `json:"rindex,omitempty"`
 }
 
 // BlockPlan is one block of plans.
@@ -266,6 +269,10 @@ type builtTx struct {
 	Spec   *chain.EthTx
 	Sender common.Address
 	Plan   TxPlan
+	// ReplayOf is set for replays: the bytes are those of an earlier tx of the history
+	ReplayOf []byte
+	// SignedSeq is the sequence a Cosmos tx was signed with
+	SignedSeq uint64
 }
 
 // planBuilder tracks in-block nonces while turning plans into tx bytes.
@@ -358,14 +365,24 @@ func (b *planBuilder) build(p TxPlan) builtTx {
 		amt, _ := sdkmath.NewIntFromString(p.Amount)
 		msg := banktypes.NewMsgSend(chain.K(p.From).Acc(), chain.K(p.ToKey).Acc(), sdk.NewCoins(sdk.NewCoin(chain.Denom, amt)))
 		ct := chain.CosmosTx{Signer: p.From, Msgs: []sdk.Msg{msg}, Gas: p.Gas, FeeAmount: fee.String(), SeqDelta: int64(p.NonceOff)}
+		switch p.Mut {
+		case "accnum":
+			ct.AccNumDelta = 1
+		case "chainid":
+			ct.ChainID = "evermint_9000-1"
+		case "nosig":
+			ct.NoSig = true
+		case "wrongsigner":
+			ct.Signer = (p.From + 1) % nEOA // signs with another key while the message names p.From
+		}
 		bz, err := ct.Build(b.c.TxCfg, b.c.World.CID(), accNum, seq)
 		if err != nil {
 			panic(fmt.Sprintf("build bank tx: %v", err))
 		}
-		if p.NonceOff == 0 {
+		if p.NonceOff == 0 && p.Mut == "" && price.Sign() > 0 && p.CapOver >= 0 {
 			b.seqs[p.From] = seq + 1
 		}
-		return builtTx{Bytes: bz, Sender: chain.K(p.From).Addr, Plan: p}
+		return builtTx{Bytes: bz, Sender: chain.K(p.From).Addr, Plan: p, SignedSeq: uint64(int64(seq) + int64(p.NonceOff))}
 	case "raw":
 		bz, _ := hex.DecodeString(p.Raw)
 		return builtTx{Bytes: bz, Plan: p}
